@@ -55,7 +55,8 @@ def make_target(rng, kind):
     out = gmat.random_dag_masks(rng, p)
     W = gmat.weighted(rng, out, "signed")
     s = int(SEED_POOL[int(rng.integers(4))]) if rng.random() < 0.6 else int(rng.integers(0, 2**32))
-    t = {"kind": kind, "seed": s, "W": W, "np_seed": int(rng.integers(1, 5)) if rng.random() < 0.25 else 0}
+    t = {"kind": kind, "seed": s, "W": W, "np_seed": int(rng.integers(1, 5)) if rng.random() < 0.25 else 0,
+         "positional": bool(rng.random() < 0.3)}
     if kind == "lganm_ctor":
         t.update(means=(-1.0, 2.0), variances=(0.5, 1.5))
     elif kind in ("lganm_sample", "anm_sample"):
@@ -165,11 +166,17 @@ def _call(t, obj, seeded, sempler, gens, U):
         m = sempler.LGANM(W, tuple(t["means"]), tuple(t["variances"]), random_state=s)
         res = [m.means, m.variances]
     elif k == "lganm_sample":
-        res = obj["m"].sample(t["n"], do_interventions=t["do"], shift_interventions=t["shift"], random_state=s)
+        if t.get("positional") and s is not None:
+            res = obj["m"].sample(t["n"], False, t["do"], t["shift"], {}, s)        # every argument given by position
+        else:
+            res = obj["m"].sample(t["n"], do_interventions=t["do"], shift_interventions=t["shift"], random_state=s)
     elif k == "nd_sample":
-        res = obj["d"].sample(t["n"], random_state=s)
+        res = obj["d"].sample(t["n"], s) if t.get("positional") and s is not None else obj["d"].sample(t["n"], random_state=s)
     elif k == "anm_sample":
-        res = obj["a"].sample(t["n"], do_interventions=obj["do"], shift_interventions=obj["sh"], random_state=s)
+        if t.get("positional") and s is not None:
+            res = obj["a"].sample(t["n"], obj["do"], obj["sh"], {}, s)
+        else:
+            res = obj["a"].sample(t["n"], do_interventions=obj["do"], shift_interventions=obj["sh"], random_state=s)
     elif k == "dag_avg_deg":
         res = gens.dag_avg_deg(t["p"], t["k"], t["w"][0], t["w"][1], return_ordering=t["ordering"], random_state=s)
     elif k == "dag_full":
@@ -350,6 +357,8 @@ def judge(family, case, rec):
     rec.count("target:" + kind)
     if target.get("np_seed"):
         rec.count("seed:numpy-integer-scalar")
+    if target.get("positional") and kind in ("lganm_sample", "nd_sample", "anm_sample"):
+        rec.count("seed:passed-positionally")
     if target["seed"] == 0:
         rec.count("seed:0")
     ops = [pt["op"] for prog in case["programs"] for pt in prog]
